@@ -748,6 +748,36 @@ def r55_len_as_f32(text, base_line=0):
     return pat.sub(lambda m: "usize_as_f32(%s)" % m.group(1), text), log
 
 
+def r56_extend_map(text, base_line=0):
+    """R56: `X.extend(E.iter().map(|P| BODY));` (P = `&v`: by copy, or `x`: by reference) -> `for __e_P in 0..E.len() { let P = E[__e_P] / &E[__e_P]; X.push(BODY); }`"""
+    log = []
+    pat = re.compile(r"(\w+)\s*\.extend\(\s*(\w+)\s*\.iter\(\)\s*\.map\(\s*\|(&?)(\w+)\|\s*")
+    while True:
+        ms = list(pat.finditer(text))
+        if not ms:
+            return text, log
+        m = ms[-1]
+        x, e, amp, v = m.groups()
+        k, depth = m.end(), 0
+        while k < len(text):
+            ch = text[k]
+            if ch in "([{":
+                depth += 1
+            elif ch in ")]}":
+                if depth == 0:
+                    break
+                depth -= 1
+            k += 1
+        tail = re.match(r"\)\s*,?\s*\)\s*;", text[k:])
+        if not tail:
+            raise LostAnchor("R56: `));` does not follow the mapped closure")
+        body = text[m.end():k].rstrip().rstrip(",").rstrip()
+        new = "for __e_%s in 0..%s.len() { let %s = %s%s[__e_%s]; %s.push(%s); }" % (v, e, v, "" if amp else "&", e, v, x, body)
+        new += "\n" * max(0, text[m.start():k + tail.end()].count("\n") - new.count("\n"))
+        log.append("R56 line %d: `%s.extend(%s.iter().map(|%s%s| ..));` -> index loop pushing the closure value" % (base_line + text.count("\n", 0, m.start()), x, e, amp, v))
+        text = text[:m.start()] + new + text[k + tail.end():]
+
+
 def r29_consuming_for(text, base_line=0):
     """R29: `for (A, B, C) in V {` (consuming a Vec in order) -> `let mut __v = V; while __v.len() > 0 { let (A, B, C) = __v.remove(0);`
     (same elements in the same order; vstd specifies `Vec::remove`, not the `IntoIter` of this Verus version)"""
@@ -1297,9 +1327,9 @@ REWRITES = {
     "R1": r1_compound_assign, "R2": r2_unary_minus, "R3": r3_scale_call, "R6": r6_for_with_continue,
     "R7": r7_isqrt, "R8": r8_step_by, "R9": r9_consts, "R10": r10_tail_continue,
     "R12": r12_enumerate, "R15": r15_iter, "R16": r16_map_index, "R17": r17_for_in_ref_vec, "R18": r18_assert_eq_shape,
-    "R19": r19_last_unwrap, "R20": r20_range_enumerate, "R21": r21_to_owned, "R22": r22_map_collect, "R23": r23_slice_iter, "R24": r24_name_wildcard_loop, "R25": r25_par_map_collect, "R26": r26_zip_iter_mut, "R27": r27_sum_f32, "R28": r28_as_f32, "R29": r29_consuming_for, "R30": r30_rev_take_collect, "R31": r31_zip_map_sum, "R32": r32_chunked_zip_flat_map, "R33": r33_unzip, "R34": r34_chunked_flat_map, "R35": r35_chunk_const, "R36": r36_extend, "R37": r37_for_in_ref, "R38": r38_flat_map3, "R39": r39_unflatten, "R42": r42_assert_eq, "R43": r43_mut_self, "R44": r44_name_tail_call, "R45": r45_min_method, "R47": r47_zip_mut_enumerate, "R48": r48_fold_max, "R49": r49_chunks_exact_view, "R50": r50_inner_map_collect, "R51": r51_last_mut, "R52": r52_extend_clone, "R53": r53_flat_zip_map_sum, "R54": r54_zip_map_collect, "R55": r55_len_as_f32, "R46": r46_f32_as_usize, "R40": r40_for_mut_ref, "R41": r41_iter_mut_for_each, "R13": r13_panic_allowed, "R14": r14_panic_forbidden,
+    "R19": r19_last_unwrap, "R20": r20_range_enumerate, "R21": r21_to_owned, "R22": r22_map_collect, "R23": r23_slice_iter, "R24": r24_name_wildcard_loop, "R25": r25_par_map_collect, "R26": r26_zip_iter_mut, "R27": r27_sum_f32, "R28": r28_as_f32, "R29": r29_consuming_for, "R30": r30_rev_take_collect, "R31": r31_zip_map_sum, "R32": r32_chunked_zip_flat_map, "R33": r33_unzip, "R34": r34_chunked_flat_map, "R35": r35_chunk_const, "R36": r36_extend, "R37": r37_for_in_ref, "R38": r38_flat_map3, "R39": r39_unflatten, "R42": r42_assert_eq, "R43": r43_mut_self, "R44": r44_name_tail_call, "R45": r45_min_method, "R47": r47_zip_mut_enumerate, "R48": r48_fold_max, "R49": r49_chunks_exact_view, "R50": r50_inner_map_collect, "R51": r51_last_mut, "R52": r52_extend_clone, "R53": r53_flat_zip_map_sum, "R54": r54_zip_map_collect, "R55": r55_len_as_f32, "R56": r56_extend_map, "R46": r46_f32_as_usize, "R40": r40_for_mut_ref, "R41": r41_iter_mut_for_each, "R13": r13_panic_allowed, "R14": r14_panic_forbidden,
 }
-ORDER = ["R42", "R43", "R44", "R28", "R46", "R45", "R47", "R48", "R49", "R18", "R13", "R14", "R16", "R55", "R53", "R54", "R50", "R51", "R52", "R40", "R41", "R38", "R39", "R36", "R37", "R31", "R32", "R34", "R35", "R33", "R25", "R26", "R29", "R30", "R27", "R20", "R22", "R23", "R24", "R12", "R15", "R17", "R19", "R21", "R10", "R8", "R6", "R9", "R7", "R3", "R1", "R2"]
+ORDER = ["R42", "R43", "R44", "R28", "R46", "R45", "R47", "R48", "R49", "R18", "R13", "R14", "R16", "R55", "R53", "R54", "R56", "R50", "R51", "R52", "R40", "R41", "R38", "R39", "R36", "R37", "R31", "R32", "R34", "R35", "R33", "R25", "R26", "R29", "R30", "R27", "R20", "R22", "R23", "R24", "R12", "R15", "R17", "R19", "R21", "R10", "R8", "R6", "R9", "R7", "R3", "R1", "R2"]
 
 
 def apply_rewrites(text, names, base_line):
@@ -1580,9 +1610,9 @@ def generate(template_path, repo, canary=False, contracts_dir=None, exclude=None
                     unreach.append((m.group(1), int(m.group(2) or 1)))
                     j += 1
                     continue
-                m = re.match(r"//@type\s+(\w+)\s*=\s*(.+)$", d)
+                m = re.match(r"//@type\s+(\w+)(?:#(\d+))?\s*=\s*(.+)$", d)
                 if m:
-                    types.append((m.group(1), m.group(2).strip()))
+                    types.append((m.group(1), m.group(3).strip(), int(m.group(2) or 0)))
                     j += 1
                     continue
                 m = re.match(r'//@outline\s+unit=(\S+)\s+call="(.*)"$', d)
@@ -1716,11 +1746,18 @@ def generate(template_path, repo, canary=False, contracts_dir=None, exclude=None
             G.units[unit]["desc"].append(desc)
             G.units[unit]["drops"] += log
             # `//@type VAR = TYPE`: a type annotation on the unique `let mut VAR = Vec::new();` (static information only; rustc rejects a wrong one)
-            for (var, ty) in types:
+            # (`VAR#k`: the k-th of several; the numbered ones are applied last to first so that earlier positions keep their ordinal)
+            for (var, ty, occ) in sorted(types, key=lambda t: -t[2]):
                 pat_t = "let mut %s = Vec::" % var
-                if text.count(pat_t) != 1:
-                    raise LostAnchor("unit %s: `%s` not found exactly once for //@type" % (unit, pat_t))
-                text = text.replace(pat_t, "let mut %s: %s = Vec::" % (var, ty))
+                if occ:
+                    hits = [h.start() for h in re.finditer(re.escape(pat_t), text)]
+                    if len(hits) < occ:
+                        raise LostAnchor("unit %s: `%s` #%d not found for //@type" % (unit, pat_t, occ))
+                    text = text[:hits[occ - 1]] + "let mut %s: %s = Vec::" % (var, ty) + text[hits[occ - 1] + len(pat_t):]
+                else:
+                    if text.count(pat_t) != 1:
+                        raise LostAnchor("unit %s: `%s` not found exactly once for //@type" % (unit, pat_t))
+                    text = text.replace(pat_t, "let mut %s: %s = Vec::" % (var, ty))
                 G.units[unit]["drops"].append("type annotation added: `let mut %s: %s`" % (var, ty))
             if spec.get("part", "whole").startswith("closure:"):
                 G.units[unit]["drops"].append(
